@@ -34,9 +34,9 @@ Proof. intros g l. induction l as [|x l IH]; intros r Hg H; cbn [mapM] in H.
   - destruct (g x) eqn:Ex; [|discriminate]. destruct (mapM g l) eqn:El; [|discriminate]. inversion H; subst.
     split; [eapply Hg; eauto|]. apply IH; auto. Qed.
 
-Lemma parse_prims_ok : forall f s t, parse f s = Some t -> prims_ok t.
+Lemma parse_prims_ok : forall f s t, parse2 f s = Some t -> prims_ok t.
 Proof. induction f as [|f IH]; intros s t H; [discriminate|].
-  cbn [parse] in H.
+  cbn [parse2] in H.
   repeat match type of H with
   | context[if ?c then _ else _] => destruct c
   | context[match ?x with _ => _ end] => destruct x eqn:?
@@ -50,7 +50,7 @@ Proof. induction f as [|f IH]; intros s t H; [discriminate|].
 Qed.
 
 Lemma pts_prims_ok : forall s, prims_ok (pts s).
-Proof. intros s. unfold pts, parse_type_structure. destruct (parse (S (List.length s)) s) eqn:E.
+Proof. intros s. unfold pts, parse_type_structure2. destruct (parse2 (S (List.length s)) s) eqn:E.
   - eapply parse_prims_ok. exact E.
   - exact Logic.I. Qed.
 
